@@ -21,9 +21,15 @@ var vhHostileSQL = [...]string{
 	"CREATE TABLE other (a)",
 	"CREATE INDEX t ON t (a)",
 	"SELECT a FROM t",
+	// names that are equal under Unicode simple case folding but not under
+	// ToLower (U+017F long s, U+212A Kelvin sign)
+	"CREATE TABLE t (s, PRIMARY KEY (\u017f))",
+	"CREATE TABLE t (k, b, UNIQUE (b, \u212a))",
+	"CREATE TABLE t (a INTEGER, a, PRIMARY KEY (a)) WITHOUT ROWID",
+	"CREATE TABLE t (a, b, a, PRIMARY KEY (b, a)) WITHOUT ROWID",
 }
 
-//verif:bounds 11 hostile-but-parsable definitions stored as the table's sqlite_master row (unknown columns in constraints, expression keys, WITHOUT ROWID without key, duplicate columns, two primary keys, wrong statement kinds) x operations Select, SelectRowid, PKSelect, IndexedSelect, Columns: an error or rows, never a panic
+//verif:bounds 15 hostile-but-parsable definitions stored as the table's sqlite_master row (unknown columns in constraints, expression keys, WITHOUT ROWID without key, duplicate columns with and without WITHOUT ROWID, two primary keys, wrong statement kinds, constraint columns that match a column only under Unicode simple folding) x operations Select, SelectRowid, PKSelect, IndexedSelect, Columns: an error or rows, never a panic
 func VH_C05_hostile_schema() {
 	f := sdb.VerifNewFile(512)
 	root, iroot := f.AddPage(), f.AddPage()
